@@ -133,6 +133,9 @@ pub fn deque_max(q: &VecDeque<T>) -> (r: Option<T>)
 pub fn ctor_reject() ensures false { panic!("constructor rejected its arguments") }
 
 #[verifier::external_body]
+// std's Clone for buffers of Copy scalars: an equal sequence in a fresh allocation (trusted)
+#[verifier::external_body] pub fn deque_clone(q: &VecDeque<T>) -> (r: VecDeque<T>) ensures r@ == q@ { q.clone() }
+#[verifier::external_body] pub fn vec_clone(q: &Vec<T>) -> (r: Vec<T>) ensures r@ == q@ { q.clone() }
 pub fn vec_last(v: &Vec<T>) -> (r: Option<T>)
     ensures r == (if v@.len() > 0 { Some(v@[v@.len() - 1]) } else { None::<T> })
 { unimplemented!() }
@@ -179,6 +182,10 @@ pub trait View: Sized {
     fn last(&self) -> (r: Option<T>)
         requires self.inv(),
         ensures r == Self::out(self.abs());
+    // M4: what `#[derive(Clone)]` generates for the view (field-wise clone); the contract of Clone for views
+    fn clone_view(&self) -> (r: Self)
+        requires self.inv(),
+        ensures r.inv(), r.abs() == self.abs();
 }
 
 // history level: fold of `step` / `accepts` over a sequence of raw inputs
